@@ -41,8 +41,14 @@ def _no(node, what):
 # ---------------------------------------------------------------------------------------------------------------
 # types
 # ---------------------------------------------------------------------------------------------------------------
-INT, STR, BOOL, TENSOR, TDICT, ZDICT, FLOAT, TRANSCRIPT, POSITION = (
-    "int", "str", "bool", "tensor", "tdict", "zdict", "float", "transcript", "position")
+INT, STR, BOOL, TENSOR, TDICT, ZDICT, FLOAT, TRANSCRIPT, POSITION, DTYPE = (
+    "int", "str", "bool", "tensor", "tdict", "zdict", "float", "transcript", "position", "dtype")
+
+
+def FN(a, r):
+    """a Python callable a -> r that may raise"""
+    return ("fn", a, r)
+
 
 
 def LIST(t):
@@ -62,8 +68,10 @@ def coq_type(t):
         return "bool"
     if t == FLOAT:
         return "Q"
-    if t in (TENSOR, TDICT, ZDICT, TRANSCRIPT, POSITION):
+    if t in (TENSOR, TDICT, ZDICT, TRANSCRIPT, POSITION, DTYPE):
         return t
+    if isinstance(t, tuple) and t[0] == "fn":
+        return f"({coq_type(t[1])} -> res ({coq_type(t[2])}))"
     if isinstance(t, tuple) and t[0] == "list":
         return f"list ({coq_type(t[1])})" if isinstance(t[1], tuple) else f"list {coq_type(t[1])}"
     if isinstance(t, tuple) and t[0] == "tuple":
@@ -78,8 +86,9 @@ RESERVED = {"fun", "let", "in", "match", "with", "end", "if", "then", "else", "f
 
 
 class Var:
-    def __init__(self, name, typ, fresh=False):
+    def __init__(self, name, typ, fresh=False, dt=None):
         self.name, self.typ, self.fresh = name, typ, fresh
+        self.dt = dt            # for a tensor: the Coq term of the dtype it was created with, when known statically
 
 
 class Env:
@@ -88,22 +97,23 @@ class Env:
         self.items = dict(items or {})
 
     def copy(self):
-        return Env({k: Var(v.name, v.typ, v.fresh) for k, v in self.items.items()})
+        return Env({k: Var(v.name, v.typ, v.fresh, v.dt) for k, v in self.items.items()})
 
     def get(self, node, name):
         if name not in self.items:
             _no(node, f"name {name!r} is not a local defined on every path")
         return self.items[name]
 
-    def bind(self, node, name, typ, fresh=False):
+    def bind(self, node, name, typ, fresh=False, dt=None):
         if name in RESERVED or (name[:1] == "t" and name[1:].isdigit()):
             _no(node, f"local name {name!r} clashes with the generated text")
         if name in self.items and self.items[name].typ != typ:
             _no(node, f"local {name!r} changes its type ({self.items[name].typ} -> {typ})")
         if name in self.items:
             self.items[name].fresh = fresh
+            self.items[name].dt = dt
         else:
-            self.items[name] = Var(name, typ, fresh)
+            self.items[name] = Var(name, typ, fresh, dt)
 
     def __contains__(self, name):
         return name in self.items
@@ -115,6 +125,8 @@ class Fn:
         self.name, self.oracles = name, oracles
         self.ntemp, self.nloop = 0, 0
         self.aux = []           # text of the generated loop Fixpoints, in dependency order
+        self.last_dt = None     # dtype term of the tensor the last compiled constructor call created
+        self.module_defs = {}   # module-level functions a call may refer to: name -> (coq term, parameter types, result type)
 
     def temp(self):
         self.ntemp += 1
@@ -175,6 +187,15 @@ def _names_read(stmts):
     return {n.id for s in stmts for n in ast.walk(s) if isinstance(n, ast.Name)}
 
 
+def _reads_with_dtypes(env, stmts):
+    """names read by the statements, plus the variables their statically known dtypes are made of"""
+    reads = _names_read(stmts)
+    for n in list(reads):
+        if n in env.items and env.items[n].dt in env.items:
+            reads.add(env.items[n].dt)
+    return reads
+
+
 # ---------------------------------------------------------------------------------------------------------------
 # expressions: returns (binds, term, type, fresh) where binds = [(temp, coq computation of type res _)]
 # ---------------------------------------------------------------------------------------------------------------
@@ -223,6 +244,12 @@ def cexpr(fn, env, node):
             _no(node, "chained comparison")
         op, rhs = node.ops[0], node.comparators[0]
         bl, tl, tyl, _ = cexpr(fn, env, node.left)
+        if isinstance(op, (ast.Gt, ast.Lt, ast.GtE, ast.LtE)):
+            br, tr, tyr, _ = cexpr(fn, env, rhs)
+            if tyl != INT or tyr != INT:
+                _no(node, "ordering comparison of non-ints")
+            sym = {ast.Gt: ">?", ast.Lt: "<?", ast.GtE: ">=?", ast.LtE: "<=?"}[type(op)]
+            return bl + br, f"({tl} {sym} {tr})", BOOL, False
         if isinstance(op, (ast.In, ast.NotIn)):
             if isinstance(rhs, ast.List) and tyl == STR and all(
                     isinstance(e, ast.Constant) and isinstance(e.value, str) for e in rhs.elts):
@@ -289,7 +316,18 @@ def _csubscript(fn, env, node):
     _no(node, f"subscript of {ty} by {tyi}")
 
 
+TORCH_DTYPES = {"uint8": "DUint8", "bool": "DBool", "int": "DInt32", "int32": "DInt32", "float": "DFloat",
+                "float32": "DFloat"}
+
+
 def _cattr(fn, env, node):
+    if isinstance(node.value, ast.Name) and node.value.id == "torch" and "torch" not in env and node.attr in TORCH_DTYPES:
+        return [], TORCH_DTYPES[node.attr], DTYPE, False
+    if node.attr == "dtype" and isinstance(node.value, ast.Name) and node.value.id in env:
+        v = env.get(node, node.value.id)
+        if v.typ == TENSOR and v.dt is not None:
+            return [], v.dt, DTYPE, False
+        _no(node, f".dtype of {node.value.id!r}, whose dtype is not known statically")
     if isinstance(node.value, ast.Name) and node.value.id in env:
         v = env.get(node, node.value.id)
         if v.typ == TRANSCRIPT:
@@ -310,7 +348,44 @@ def _ccall(fn, env, node):
     if None in kw:
         _no(node, "**kwargs")
     # torch.*
+    fn.last_dt = None
     if isinstance(f, ast.Attribute) and isinstance(f.value, ast.Name) and f.value.id == "torch" and "torch" not in env:
+        if f.attr in ("zeros", "empty") and len(node.args) == 1 and isinstance(node.args[0], ast.Tuple) and set(kw) == {"dtype"}:
+            bd, td, tyd, _ = cexpr(fn, env, kw["dtype"])
+            if tyd != DTYPE or bd:
+                _no(node, "dtype argument")
+            dims, b = [], []
+            for e in node.args[0].elts:
+                be, te, tye, _ = cexpr(fn, env, e)
+                if tye != INT:
+                    _no(node, "shape entry that is not an int")
+                b += be
+                dims.append(te)
+            if f.attr == "zeros" and len(dims) == 2:
+                t_ = _bind(fn, b, f"t_zeros2 {td} {dims[0]} {dims[1]}")
+                fn.last_dt = td
+                return b, t_, TENSOR, True
+            if f.attr == "empty" and len(dims) == 1 and td == "DInt32" and "uninit" in fn.oracles:
+                t_ = _bind(fn, b, f"t_empty_int uninit {dims[0]}")
+                fn.last_dt = td
+                return b, t_, TENSOR, True
+            _no(node, f"torch.{f.attr} with this shape / dtype")
+        if f.attr == "zeros_like" and len(node.args) == 1 and set(kw) == {"dtype"}:
+            b, t_, ty, _ = cexpr(fn, env, node.args[0])
+            bd, td, tyd, _ = cexpr(fn, env, kw["dtype"])
+            if ty != TENSOR or tyd != DTYPE or bd:
+                _no(node, "zeros_like(t, dtype=d)")
+            r = _bind(fn, b, f"t_zeros_like_as {t_} {td}")
+            fn.last_dt = td
+            return b, r, TENSOR, True
+        if f.attr == "tensor" and len(node.args) == 1 and set(kw) == {"dtype"} and not _is_attr(kw["dtype"], "torch", "float32"):
+            b, t_, ty, _ = cexpr(fn, env, node.args[0])
+            bd, td, tyd, _ = cexpr(fn, env, kw["dtype"])
+            if ty != LIST(INT) or tyd != DTYPE or bd:
+                _no(node, "torch.tensor(l, dtype=d) of something else than a list of ints")
+            r = _bind(fn, b, f"t_tensor_ints {td} {t_}")
+            fn.last_dt = td
+            return b, r, TENSOR, True
         if f.attr == "zeros_like" and len(node.args) == 1 and not kw:
             b, t, ty, _ = cexpr(fn, env, node.args[0])
             if ty != TENSOR:
@@ -334,12 +409,50 @@ def _ccall(fn, env, node):
                 _no(node, "torch.tensor of something else than a list of numbers")
             return b, f"(t_tensor {t})", TENSOR, True
         _no(node, f"torch.{f.attr}")
+    if isinstance(f, ast.Name) and f.id in env:
+        v = env.get(node, f.id)
+        if isinstance(v.typ, tuple) and v.typ[0] == "fn" and len(node.args) == 1 and not kw:
+            b, t_, ty, _ = cexpr(fn, env, node.args[0])
+            if ty != v.typ[1]:
+                _no(node, f"argument of {f.id}")
+            return b, _bind(fn, b, f"{v.name} {t_}"), v.typ[2], False
+        _no(node, f"call of the local {f.id!r}")
     if isinstance(f, ast.Name) and f.id not in env:
         if f.id == "tuple" and len(node.args) == 1 and not kw:
             b, t, ty, _ = cexpr(fn, env, node.args[0])
             if ty != LIST(INT):
                 _no(node, "tuple() of something else than a list of ints")
             return b, t, KEY, False
+        if f.id == "len" and len(node.args) == 1 and not kw and not (
+                isinstance(node.args[0], ast.Attribute) and node.args[0].attr == "shape"):
+            b, t_, ty, _ = cexpr(fn, env, node.args[0])
+            if not (isinstance(ty, tuple) and ty[0] == "list"):
+                _no(node, "len() of something else than a list")
+            return b, f"(zlen {t_})", INT, False
+        if f.id in fn.module_defs:
+            term, ptypes, rtype = fn.module_defs[f.id]
+            args = list(node.args)
+            names = [pn for pn, _ in ptypes]
+            for k_, v_ in kw.items():
+                if k_ not in names[len(node.args):]:
+                    _no(node, f"keyword argument {k_!r}")
+            for pn, _ in ptypes[len(node.args):]:
+                if pn not in kw:
+                    _no(node, f"call of {f.id} without the argument {pn!r} (defaults are not modelled)")
+                args.append(kw[pn])
+            if len(args) != len(ptypes):
+                _no(node, f"arity of {f.id}")
+            b, terms = [], []
+            for a_, (pn, pty) in zip(args, ptypes):
+                if isinstance(a_, ast.Lambda):
+                    terms.append(_clambda(fn, env, a_, pty))
+                    continue
+                ba, ta, tya, _ = cexpr(fn, env, a_)
+                if tya != pty:
+                    _no(node, f"argument {pn!r} of {f.id}: {tya} where {pty} is expected")
+                b += ba
+                terms.append(ta)
+            return b, _bind(fn, b, f"{term} " + " ".join(terms)), rtype, False
         if f.id == "len" and len(node.args) == 1 and not kw and isinstance(node.args[0], ast.Attribute) \
                 and node.args[0].attr == "shape":
             b, t, ty, _ = cexpr(fn, env, node.args[0].value)
@@ -357,6 +470,12 @@ def _ccall(fn, env, node):
             return b, "(d_of_list [" + "; ".join(items) + "])", TDICT, False
         _no(node, f"call of {f.id}")
     if isinstance(f, ast.Attribute):
+        if f.attr == "size" and len(node.args) == 1 and not kw and isinstance(node.args[0], ast.Constant) \
+                and isinstance(node.args[0].value, int) and not isinstance(node.args[0].value, bool):
+            b, t_, ty, _ = cexpr(fn, env, f.value)
+            if ty != TENSOR:
+                _no(node, ".size(k) of a non-tensor")
+            return b, _bind(fn, b, f"t_size {t_} {_zlit(node.args[0].value)}"), INT, False
         if f.attr == "tolist" and not node.args and not kw:
             b, t, ty, _ = cexpr(fn, env, f.value)
             if ty != TENSOR:
@@ -376,6 +495,25 @@ def _ccall(fn, env, node):
                 _no(node, "encode_batch of something else than a list of positions")
             return b, _bind(fn, b, f"encode_batch {t}"), TUPLE(TENSOR, TENSOR), False
     _no(node, "call")
+
+
+def _clambda(fn, env, node, pty):
+    """lambda x: e  for a parameter of type FN(a, r)"""
+    a = node.args
+    if not (isinstance(pty, tuple) and pty[0] == "fn") or a.vararg or a.kwarg or a.kwonlyargs or a.defaults \
+            or len(a.args) != 1:
+        _no(node, "lambda")
+    inner = env.copy()
+    inner.bind(node, a.args[0].arg, pty[1])
+    sub = Fn(fn.name, fn.oracles)
+    sub.module_defs = fn.module_defs
+    sub.ntemp = fn.ntemp
+    b, t_, ty, _ = cexpr(sub, inner, node.body)
+    fn.ntemp = sub.ntemp
+    if ty != pty[2]:
+        _no(node, f"lambda result {ty} where {pty[2]} is expected")
+    body = "".join(f"{x} <- {c} ;; " for x, c in b) + f"ret {t_}"
+    return f"(fun {a.args[0].arg} => {body})"
 
 
 def _pure(node, binds, what):
@@ -509,6 +647,10 @@ def cblock(fn, env, stmts, ind, tail):
             _no(s, "statements after return")
         if s.value is None:
             _no(s, "bare return")
+        if isinstance(s.value, ast.Tuple) and s.value.elts and all(isinstance(e, ast.Name) for e in s.value.elts):
+            vs = [env.get(s, e.id) for e in s.value.elts]
+            fn.ret_type = TUPLE(*[v.typ for v in vs])
+            return [f"{ind}ret ({', '.join(v.name for v in vs)})"]
         b, t, ty, _ = cexpr(fn, env, s.value)
         fn.ret_type = ty
         return _emit_binds(b, ind) + [f"{ind}ret {t}"]
@@ -516,15 +658,25 @@ def cblock(fn, env, stmts, ind, tail):
         if len(s.targets) != 1:
             _no(s, "chained assignment")
         tgt = s.targets[0]
+        if isinstance(tgt, ast.Name) and isinstance(s.value, ast.Name) and s.value.id in env \
+                and env.get(s, s.value.id).typ == TENSOR and s.value.id != tgt.id:
+            # x = y for tensors: x becomes THE name of the object; y may not be used any more (it would be an alias)
+            src = env.get(s, s.value.id)
+            lines.append(f"{ind}let {tgt.id} := {src.name} in")
+            fresh, dt = src.fresh, src.dt
+            del env.items[s.value.id]
+            env.bind(s, tgt.id, TENSOR, fresh, dt)
+            return lines + cblock(fn, env, rest, ind, tail)
         if isinstance(tgt, ast.Name):
             b, t, ty, fresh = cexpr(fn, env, s.value)
+            dt = fn.last_dt if (ty == TENSOR and fresh and isinstance(s.value, ast.Call)) else None
             if ty == TENSOR and isinstance(s.value, (ast.Name, ast.Subscript)):
                 # an alias / a view of an existing tensor: nothing reachable from it may be changed in place any more
                 for n in ast.walk(s.value):
                     if isinstance(n, ast.Name) and n.id in env:
                         env.items[n.id].fresh = False
             lines += _emit_binds(b, ind)
-            env.bind(s, tgt.id, ty, fresh)
+            env.bind(s, tgt.id, ty, fresh, dt)
             lines.append(f"{ind}let {tgt.id} := {t} in")
             return lines + cblock(fn, env, rest, ind, tail)
         if isinstance(tgt, ast.Tuple) and all(isinstance(e, ast.Name) for e in tgt.elts):
@@ -544,6 +696,46 @@ def cblock(fn, env, stmts, ind, tail):
             b, t, ty, _ = cexpr(fn, env, s.value)                  # right-hand side first
             lines += _emit_binds(b, ind)
             inner = tgt.value
+            if isinstance(inner, ast.Name) and isinstance(tgt.slice, ast.Tuple) and len(tgt.slice.elts) == 2 \
+                    and env.get(s, inner.id).typ == TENSOR:
+                v = _require_mutable(s, env, inner.id)
+                e0, e1 = tgt.slice.elts
+                if not (isinstance(e1, ast.Slice) and e1.lower is None and e1.step is None and e1.upper is not None):
+                    _no(s, "column index other than :k")
+                if isinstance(e0, ast.Slice):
+                    if e0.lower is not None or e0.upper is not None or e0.step is not None or ty != TENSOR:
+                        _no(s, "row index other than i or :")
+                    bu, tu, tyu, _ = cexpr(fn, env, e1.upper)
+                    if tyu != INT:
+                        _no(s, "slice bound")
+                    lines += _emit_binds(bu, ind)
+                    t1 = fn.temp()
+                    lines.append(f"{ind}{t1} <- t_set_cols_prefix {v.name} {tu} {t} ;;")
+                else:
+                    bi, ti, tyi, _ = cexpr(fn, env, e0)
+                    bu, tu, tyu, _ = cexpr(fn, env, e1.upper)
+                    if tyi != INT or tyu != INT:
+                        _no(s, "index / slice bound")
+                    lines += _emit_binds(bi + bu, ind)
+                    t1 = fn.temp()
+                    if ty == TENSOR:
+                        lines.append(f"{ind}{t1} <- t_set_row_prefix {v.name} {ti} {tu} {t} ;;")
+                    elif ty == INT:
+                        lines.append(f"{ind}{t1} <- t_fill_row_prefix {v.name} {ti} {tu} {t} ;;")
+                    else:
+                        _no(s, "assigned value")
+                lines.append(f"{ind}let {v.name} := {t1} in")
+                return lines + cblock(fn, env, rest, ind, tail)
+            if isinstance(inner, ast.Name) and env.get(s, inner.id).typ == TENSOR and ty == INT:     # t[i] = n
+                v = _require_mutable(s, env, inner.id)
+                bk, tk, tyk, _ = cexpr(fn, env, tgt.slice)
+                if tyk != INT:
+                    _no(s, "index")
+                lines += _emit_binds(bk, ind)
+                t1 = fn.temp()
+                lines.append(f"{ind}{t1} <- t_set_int {v.name} {tk} {t} ;;")
+                lines.append(f"{ind}let {v.name} := {t1} in")
+                return lines + cblock(fn, env, rest, ind, tail)
             if isinstance(inner, ast.Name):                        # d[k] = v
                 v = env.get(s, inner.id)
                 bk, tk, tyk, _ = cexpr(fn, env, tgt.slice)
@@ -633,11 +825,9 @@ def cblock(fn, env, stmts, ind, tail):
         if ty != BOOL:
             _no(s, "condition that is not a comparison")
         lines += _emit_binds(b, ind)
-        assigned = _names_assigned(s.body + s.orelse)
         in_then, in_else = _names_assigned(s.body), _names_assigned(s.orelse)
-        for n in assigned:
-            if n not in env and not (n in in_then and n in in_else):
-                _no(s, f"{n!r} is assigned in one branch only and does not exist before the `if`")
+        # a name first assigned in one branch only is local to that branch (reading it afterwards is refused)
+        assigned = [n for n in _names_assigned(s.body + s.orelse) if n in env or (n in in_then and n in in_else)]
         if not assigned:
             _no(s, "`if` without effect")
         envs = []
@@ -657,11 +847,23 @@ def cblock(fn, env, stmts, ind, tail):
             v1, v2 = envs[0].get(s, n), envs[1].get(s, n)
             if v1.typ != v2.typ:
                 _no(s, f"{n!r} has different types in the two branches")
-            env.bind(s, n, v1.typ, v1.fresh and v2.fresh)
+            env.bind(s, n, v1.typ, v1.fresh and v2.fresh, v1.dt if v1.dt == v2.dt else None)
+        for n in list(env.items):
+            if any(n not in e for e in envs):      # moved away (x = y) in a branch
+                del env.items[n]
         return lines + cblock(fn, env, rest, ind, tail)
     if isinstance(s, ast.For):
-        if s.orelse or not isinstance(s.target, ast.Name):
-            _no(s, "for-else / tuple loop target")
+        if s.orelse:
+            _no(s, "for-else")
+        enum = (isinstance(s.iter, ast.Call) and isinstance(s.iter.func, ast.Name) and s.iter.func.id == "enumerate"
+                and "enumerate" not in env and len(s.iter.args) == 1 and not s.iter.keywords)
+        if enum:
+            if not (isinstance(s.target, ast.Tuple) and len(s.target.elts) == 2
+                    and all(isinstance(e, ast.Name) for e in s.target.elts)):
+                _no(s, "enumerate without an (index, element) target")
+            return _cfor_enumerate(fn, env, s, rest, ind, tail, lines)
+        if not isinstance(s.target, ast.Name):
+            _no(s, "tuple loop target")
         for n in ast.walk(s):
             if isinstance(n, (ast.Break, ast.Continue, ast.Return)):
                 _no(n, "break / continue / return inside a loop")
@@ -686,7 +888,7 @@ def cblock(fn, env, stmts, ind, tail):
         state = [n for n in env.items if n in assigned]
         if not state:
             _no(s, "loop without effect")
-        reads = _names_read(s.body)
+        reads = _reads_with_dtypes(env, s.body)
         free = [n for n in env.items if n in reads and n not in state]
         fn.nloop += 1
         fname = f"{fn.name}_for{fn.nloop}"
@@ -715,6 +917,60 @@ def cblock(fn, env, stmts, ind, tail):
     _no(s, f"statement {type(s).__name__}")
 
 
+def _cfor_enumerate(fn, env, s, rest, ind, tail, lines):
+    """for (i, x) in enumerate(e): e a list variable, or a 1-d integer tensor (its entries as ints)"""
+    for n in ast.walk(s):
+        if isinstance(n, (ast.Break, ast.Continue, ast.Return)):
+            _no(n, "break / continue / return inside a loop")
+    src = s.iter.args[0]
+    b, t, ty, _ = cexpr(fn, env, src)
+    if ty == TENSOR:
+        t = _bind(fn, b, f"t_iter_int {t}")
+        elem = INT
+    elif isinstance(ty, tuple) and ty[0] == "list" and not b:
+        elem = ty[1]
+    else:
+        _no(s, "enumerate of something else than a list variable / a tensor")
+    lines += _emit_binds(b, ind)
+    iname, xname = s.target.elts[0].id, s.target.elts[1].id
+    assigned = _names_assigned(s.body)
+    if {iname, xname} & (set(assigned) | set(env.items)) or iname == xname:
+        _no(s, "loop variable reused")
+    if isinstance(src, ast.Name) and src.id in assigned:
+        _no(s, "the body changes the iterated object")
+    state = [n for n in env.items if n in assigned]
+    if not state:
+        _no(s, "loop without effect")
+    reads = _reads_with_dtypes(env, s.body)
+    free = [n for n in env.items if n in reads and n not in state]
+    fn.nloop += 1
+    fname = f"{fn.name}_for{fn.nloop}"
+    benv = env.copy()
+    benv.bind(s, iname, INT)
+    benv.bind(s, xname, elem)
+    call = lambda e2, i2: [f"{i2}{fname} " + " ".join([e2.get(s, n).name for n in free + state] + ["it'"])]   # noqa: E731
+    body = cblock(fn, benv, s.body, "    ", call)
+    for n in state:
+        if benv.get(s, n).typ != env.get(s, n).typ:
+            _no(s, "loop state changes type")
+    params = " ".join(f"({env.get(s, n).name} : {coq_type(env.get(s, n).typ)})" for n in free + state)
+    sty = coq_type(TUPLE(*[env.get(s, n).typ for n in state])) if len(state) > 1 else coq_type(env.get(s, state[0]).typ)
+    st = _tuple_of([env.get(s, n).name for n in state])
+    ety = coq_type(elem)
+    fn.aux.append("\n".join(
+        [f"Fixpoint {fname} {params} (it : list (Z * {ety if ' ' not in ety else '(' + ety + ')'})) {{struct it}} : res {sty} :=",
+         "  match it with",
+         f"  | [] => ret {st}",
+         f"  | ({iname}, {xname}) :: it' =>"] + body + ["  end."]))
+    pat = st if len(state) == 1 else "'" + st
+    args = " ".join([env.get(s, n).name for n in free + state])
+    lines.append(f"{ind}{pat} <- {fname} {args} (py_enumerate {t}) ;;")
+    for n in state:
+        env.items[n].fresh = env.items[n].fresh and benv.get(s, n).fresh
+        env.items[n].dt = benv.get(s, n).dt if benv.get(s, n).dt == env.items[n].dt else None
+    return lines + cblock(fn, env, rest, ind, tail)
+
+
 # ---------------------------------------------------------------------------------------------------------------
 # functions
 # ---------------------------------------------------------------------------------------------------------------
@@ -734,14 +990,15 @@ def _find_function(tree, name, path):
     return found[0]
 
 
-def translate_function(src_text, path, name, params, ret, oracles):
+def translate_function(src_text, path, name, params, ret, oracles, module_defs=None, allow_defaults=False):
     fdef = _find_function(ast.parse(src_text), name, path)
     a = fdef.args
-    if a.vararg or a.kwarg or a.kwonlyargs or a.posonlyargs or a.defaults or fdef.decorator_list:
+    if a.vararg or a.kwarg or a.kwonlyargs or a.posonlyargs or (a.defaults and not allow_defaults) or fdef.decorator_list:
         _no(fdef, "signature")
     if [x.arg for x in a.args] != [p for p, _ in params]:
         _no(fdef, f"parameters of {name} changed: {[x.arg for x in a.args]}")
     fn = Fn(name, oracles)
+    fn.module_defs = dict(module_defs or {})
     env = Env()
     for p, ty in params:
         env.bind(fdef, p, ty, False)
@@ -793,8 +1050,68 @@ def translate(repo_python):
         return STUB % msg.replace("*)", "* )"), msg
 
 
+# ---------------------------------------------------------------------------------------------------------------
+# second entry point: encoding._encode_batch / encode_batch  ->  gen/EncodeBatchGen.v  (T06B)
+# ---------------------------------------------------------------------------------------------------------------
+EB_HEADER = """(* GENERATED by harness/torch2coq.py from python/tak/model/encoding.py (_encode_batch, encode_batch) of the tree under
+   test - do not edit.  Written against model/TorchLite.v and model/PySem.v.  `encode(p, include_sentinel)` inside
+   the lambda of encode_batch is the ALREADY TRANSLATED gen/EncodingGen.v `encode` (T06).  torch.empty is
+   uninitialised memory: its content is the Section variable `uninit`.  The default `dtype=torch.float` of
+   _encode_batch and the default `include_sentinel=True` are not modelled (every call passes the argument explicitly;
+   a call that relies on a default is refused).
+   sha256 of the two function sources: %s *)
+From Coq Require Import ZArith QArith String List Bool.
+From TV Require Import model.Tak model.PySem model.TorchLite.
+From TV Require gen.EncodingGen.
+Import ListNotations.
+Open Scope Z_scope.
+"""
+
+
+def translate_encode_batch(repo_python):
+    """-> (coq text, error or None)"""
+    rel = "tak/model/encoding.py"
+    try:
+        src = (Path(repo_python) / rel).read_text()
+        tree = ast.parse(src)
+        enc = _find_function(tree, "encode", rel)
+        if [a.arg for a in enc.args.args] != ["p", "include_sentinel"] or enc.args.vararg or enc.args.kwarg \
+                or enc.args.kwonlyargs:
+            _no(enc, "signature of encode (the callee inside encode_batch's lambda)")
+        for n in tree.body:         # `encode` / `_encode_batch` must not be rebound at module level
+            if isinstance(n, (ast.Assign, ast.AugAssign, ast.AnnAssign)):
+                for x in ast.walk(n):
+                    if isinstance(x, ast.Name) and isinstance(x.ctx, ast.Store) and x.id in ("encode", "_encode_batch", "encode_batch"):
+                        _no(n, f"module-level rebinding of {x.id}")
+        fn_t = FN(POSITION, LIST(INT))
+        pair = TUPLE(TENSOR, TENSOR)
+        eb_params = [("inputs", LIST(POSITION)), ("encode_one", fn_t), ("dtype", DTYPE)]
+        oracles = {"uninit": "nat -> Z"}
+        digest = hashlib.sha256()
+        for name in ("_encode_batch", "encode_batch"):
+            digest.update(ast.get_source_segment(src, _find_function(tree, name, rel)).encode())
+        t1 = translate_function(src, rel, "_encode_batch", eb_params, pair, oracles, allow_defaults=True)
+        defs = {"_encode_batch": ("_encode_batch", eb_params, pair),
+                "encode": ("EncodingGen.encode", [("p", POSITION), ("include_sentinel", BOOL)], LIST(INT))}
+        t2 = translate_function(src, rel, "encode_batch", [("positions", LIST(POSITION)), ("include_sentinel", BOOL)],
+                                pair, oracles, module_defs=defs, allow_defaults=True)
+        body = ("Section encode_batch_uninit.\nVariable uninit : nat -> Z.\n\n"
+                f"(* {rel}: _encode_batch *)\n{t1}\n\n(* {rel}: encode_batch *)\n{t2}\nEnd encode_batch_uninit.\n")
+        return EB_HEADER % digest.hexdigest()[:16] + "\n" + body, None
+    except (Untranslatable, SyntaxError, OSError) as e:
+        msg = f"{type(e).__name__}: {e}"
+        return STUB % msg.replace("*)", "* )"), msg
+
+
 if __name__ == "__main__":
     import sys
+    if len(sys.argv) > 2 and sys.argv[2] == "encode_batch":
+        text, err = translate_encode_batch(Path(sys.argv[1]))
+        print(text)
+        if err:
+            print("ERROR:", err, file=sys.stderr)
+            sys.exit(1)
+        sys.exit(0)
     text, err = translate(Path(sys.argv[1] if len(sys.argv) > 1 else "/repo/python"))
     print(text)
     if err:
